@@ -74,6 +74,11 @@ CLAIMED = {
             "MCDial: every configuration (context kind x timeout relation x NetDial ok/fail/hang x peer responsive/silent-from-i/failing-at-i, K=2) x every interleaving: S1 (nil error => open conn, deadline cleared), S2 (error => closed), S3 (watcher finished, conn never touched after return), S4 (context ended early and I/O nil/timeout => context's error), S5, ConnStable, and Live ((ctx done or timeout fired) ~> returned under weak fairness); the pre-repair model (watcher observes ctx) is shown to violate Live. Real code: 380 forced schedules (cancellation before/inside NetDial, at begin/end of every I/O operation, exactly as the handshake completes; SetDeadline(past) immediate or held until the I/O is over) + 300 (thorough 5000) unforced races, every event sequenced under the gate's mutex, validated against TraceDial with the invisible steps as silent actions; liveness on the real code = returns within 3 s for 30 ms timers.",
             "Conn and NetDial are harness stubs that honour deadlines/contexts; the Go scheduler decides the unforced race; TLS (wss) dialing is not modelled.",
             "7/C20"),
+    "C12": ("model_checking",
+            "TLA+ FlateOps/FlateStream (cbuf tail protocol, suffixed reader) model-checked by TLC + record validation of the real wsflate stack with an independent inflater/deflater (Python zlib) supplying the DEFLATE verdicts",
+            "FlateStream: TLC checks that cbuf.Write's split/shift arithmetic refines 'destination = compressor output minus its last min(4,n) bytes; Flush ok iff the output ends with 00 00 ff ff' for every chunking of every byte string <= 9 over 3 byte values. Real code: scripted compressors through wsflate.Writer (all <= 3-chunk splits of strings <= 5, thorough 7, with/without tail, then sticky-error probes), pass-through decompressors through wsflate.Reader (byte-reader/plain sources, 6 read modes incl. Reset), compress/flate at 5 levels x 7-10 payload classes x 5 write/flush patterns inflated by Python zlib at every flush and after Close, zlib sync-flushed streams (4 levels x 3 strategies) read back under 6 source/chunking modes, the frame helpers, and the end-to-end writer/reader stack with MessageState.",
+            "Bit-level DEFLATE fidelity is delegated to Python zlib (stated in DESIGN 10); payload classes are samples.",
+            "7/C12"),
 }
 
 PENDING_REASON = "check not built yet in this round (work in progress; planned in DESIGN.md section 7)"
